@@ -114,7 +114,7 @@ def run(tier, replay=None):
             tw[info["dirfile"]] = "\n".join(ls)
             hc.append({"id": 3 * i + 2, "mode": "observe", "files": tw, "base": "main.s", "want": ["items"]})
         hc.append({"id": 3 * i + 3, "mode": "observe", "text": "nop\n", "want": []})
-    tp, hevs = run_harness(rvh, hc, wd, "inc")
+    tp, hevs = run_harness_par(rvh, hc, wd, "inc")
     evs = []
     ncli = 0
     with tempfile.TemporaryDirectory(dir=WORK) as td:
